@@ -194,6 +194,11 @@ func (e *encoderState) Flush() error {
 	// Flush the internal buffer to the underlying io.Writer.
 	n, err := e.wr.Write(e.Buf)
 	e.baseOffset += int64(n)
+	if err == nil && n < len(e.Buf) {
+		// A writer that accepts less than it was given must say why.
+		// Do not drop the rest on behalf of one that does not.
+		err = io.ErrShortWrite
+	}
 	if err != nil {
 		// In the event of an error, preserve the unflushed portion.
 		// Thus, write errors aren't fatal so long as the io.Writer
